@@ -77,6 +77,10 @@ def flt(c, viol, tag):
     if 'build_exc' in c:
         viol.append(v('oracle:filter-build-failed', c, f'{tag}: Filter ({w}) failed to build: {c["build_exc"]}'))
         return None
+    ru = c.get('reuse')
+    if ru and ru['got'] != ru['want']:
+        viol.append(v('oracle:filter-object-follows-an-earlier-dataset', c, f'{tag}: the Filter object ({w}) was first connected to a dataset with ids {ids}; connected '
+                                                                       f'afterwards to another dataset with ids {ru["ids2"]} it keeps {ru["got"]} instead of {ru["want"]}'))
     for row in c['rows']:
         if row['id'] in c['new_ids'] or True:
             if not row['same_value'] or not row['same_hash']:
@@ -115,7 +119,7 @@ def join(c, viol, tag):
                     viol.append(v('oracle:join-key-field', c, f'{tag}: key field of id {row["id"]!r}: {row["key"]}'))
                 rows.append(f'({lib.cstr(row["id"])}, ({opt(lv, lib.cstr)}, {opt(rv, lib.cstr)}))')
             else:
-                served = [f for f in ('lval', 'rval') if 'val' in row[f] and row[f]['val'] is not None]
+                served = [f for f in ('lval', 'rval', 'key') if 'val' in row[f]]          # also a None: an id outside the join has no fields
                 if served:
                     viol.append(v('F6:join-serves-id-outside-join', c, f'{tag}: how={c["how"]}: id {row["id"]!r} is not among the join ids {c["ids"]} but {served} return a value'))
     return ('{| jn_how := ' + MODES[c['how']] + '; jn_left := ' + lib.clist([f'({lib.cstr(a)}, {lib.cstr(b)})' for a, b in L])
@@ -254,8 +258,9 @@ def run(ctx, kinds, n_quick=300, n_thorough=3000):
     kinds_count = {}
     for c in cases:
         kinds_count[c['kind'] + (':rejected' if 'build_exc' in c else '')] = kinds_count.get(c['kind'] + (':rejected' if 'build_exc' in c else ''), 0) + 1
-    return {'evaluations': len(cases), 'distinct_nontrivial': len(distinct),
+    from props import collide
+    return collide.add(ctx, {'evaluations': len(cases), 'distinct_nontrivial': len(distinct),
             'rule': 'random id sets over 8 ids (disjoint, overlapping, overlapping non-adjacent, empty datasets; unsorted ids; duplicate join keys; '
                     'colliding split ids; one-shot iterables for keep/drop) through the real layers and through Model/Relational.v; distinct by input',
             'samples': [{k: c[k] for k in c if k not in ('rows', 'checkids')} for c in cases[:1]],
-            'distribution': kinds_count, 'violations': outv, 'oracle_checks': len(cases), 'mismatches': mism}
+            'distribution': kinds_count, 'violations': outv, 'oracle_checks': len(cases), 'mismatches': mism}, ctx['pid'])
